@@ -79,6 +79,25 @@ def replay_cases(v, pid, path):
         print("regenerated part %s: %d occurrence(s) of %s" % (part, len(hits), rep["signature"]))
         return 1 if hits else 0
     src = os.path.join(out, "in.txt")
+    if all(l.split("\t")[0] in ("compact_run", "compact_inv_ok", "restore_disc_ok") for l in lines):
+        # observations of a generated part: regenerate that part with the recorded seed/tier
+        part = r.get("part") or ("compact" if lines[0].startswith("compact") else "restore")
+        cmd = [C.harness_bin("faults"), "faults", "-out", out, "-n", str(r.get("n", 30)), "-seed", str(rep["seed"]), "-part", part]
+        if rep.get("tier") == "thorough":
+            cmd.append("-thorough")
+        rc, o = C.sh(cmd, timeout=6000)
+        if rc != 0:
+            print(o)
+            return 2
+        total, mism, errors = C.run_runner(os.path.join(out, "cases.txt"), LAYERS)
+        for m in mism[:10]:
+            print("REPLAY-MISMATCH entry=%s case=%s" % (m["entry"], m["case"][:300]))
+        st = json.load(open(os.path.join(out, "stats.json")))
+        for iv in st.get("impl_violations", [])[:10]:
+            print("REPLAY-VIOLATION %s: %s" % (iv["signature"], iv["detail"][:300]))
+        print("regenerated part %s: %d case(s), %d mismatch(es), %d implementation violation(s)"
+              % (part, total, len(mism), len(st.get("impl_violations", []))))
+        return 1 if (mism or st.get("impl_violations")) else 0
     if all(l.startswith("restore_ops_ok") for l in lines):
         # derived from the source text, not from a run: re-extract and re-evaluate
         from . import c10
